@@ -190,6 +190,68 @@ class Exec(object):
             self._locals_cache[k] = local_names(unit.node)
         return self._locals_cache[k]
 
+    # ---- naming of large terms (keeps the term DAG linear; definitions live in the assumptions)
+    name_limit = 60
+
+    def is_small(self, t, limit=None):
+        limit = limit or self.name_limit
+        seen = set()
+        stack = [t]
+        while stack:
+            x = stack.pop()
+            i = x.get_id()
+            if i in seen:
+                continue
+            seen.add(i)
+            if len(seen) > limit:
+                return False
+            if z3.is_app(x):
+                stack.extend(x.children())
+        return True
+
+    def name_bool(self, c):
+        c = simp(c)
+        if z3.is_true(c) or z3.is_false(c) or self.is_small(c):
+            return c
+        if z3.is_not(c):
+            return z3.Not(self.name_bool(c.arg(0)))
+        defs = self.__dict__.setdefault("defs", {})
+        rev = self.__dict__.setdefault("_defs_rev", {})
+        if c.get_id() in rev:
+            return rev[c.get_id()]
+        b = fresh("b", B)
+        self.assumptions.append(b == c)
+        defs[b.get_id()] = c
+        rev[c.get_id()] = b
+        self.__dict__.setdefault("_keepalive", []).append((b, c))
+        return b
+
+    def name_val(self, v):
+        """Give a large value a name.  The outermost constructor stays visible (so type dispatch stays static)."""
+        if v.sort() != Val:
+            return v
+        v = simp(v)
+        if self.is_small(v):
+            return v
+        from . import strnorm
+        defs = self.__dict__.setdefault("defs", strnorm.DEFS)
+        rev = self.__dict__.setdefault("_defs_rev", {})
+        if v.get_id() in rev:
+            return rev[v.get_id()]
+        if z3.is_app(v) and v.num_args() == 1 and v.decl().kind() == z3.Z3_OP_DT_CONSTRUCTOR:
+            payload = v.arg(0)
+            n = fresh("n", payload.sort())
+            self.assumptions.append(n == payload)
+            defs[n.get_id()] = payload
+            out = v.decl()(n)
+        else:
+            out = fresh("v", Val)
+            self.assumptions.append(out == v)
+            defs[out.get_id()] = v
+        rev[v.get_id()] = out
+        self.__dict__.setdefault("_keepalive", []).append((out, v))
+        return out
+
     def close_refs(self, v):
         """Heap closedness, instantiated lazily (DESIGN Appendix B): a reference read out of a base heap array
         (the initial heap, or content havocked by a callee contract) denotes an object that existed when that
@@ -225,7 +287,11 @@ class Exec(object):
             if bound is not None:
                 self.assumptions.append(z3.And(z3.Implies(is_Ref(x), rval(x) < bound), z3.Not(is_Unbound(x))))
                 self.__dict__.setdefault("_keepalive", []).append(x)
-            stack.extend(x.children())
+            # only value positions: the branches of If nodes (what sits in conditions / indices was closed
+            # when it was read)
+            if k == z3.Z3_OP_ITE:
+                stack.append(x.arg(1))
+                stack.append(x.arg(2))
         return v
 
     # ------------------------------------------------------------------ assumptions / obligations
@@ -310,7 +376,7 @@ class Exec(object):
         """Fork an exceptional path under `cond`; continue on the complement."""
         if ctx.spec:
             return
-        cond = simp(cond)
+        cond = self.name_bool(cond)
         if z3.is_false(cond):
             return
         rs = st.fork()
@@ -480,7 +546,7 @@ class Exec(object):
     def store_name(self, name, val, st, ctx):
         fid = ctx.fid
         # nonlocal handling: write to the frame whose unit declares it local
-        st.frames.setdefault(fid, {})[name] = val
+        st.frames.setdefault(fid, {})[name] = self.name_val(val) if not ctx.spec else val
 
     # ------------------------------------------------------------------ statements
     def exec_block(self, stmts, st, ctx):
@@ -640,9 +706,13 @@ class Exec(object):
             BI.set_item(self, st, ctx, obj, k, v, t)
         elif isinstance(t, ast.Attribute):
             obj = self.eval(t.value, st, ctx)
-            self.raise_if(st, ctx, z3.Not(is_Ref(obj)), "AttributeError", node=t)
             self.key_universe.add(t.attr)
-            st.heap = st.heap.dset(rval(obj), sv(t.attr), v)
+
+            def setattr_(x, o):
+                self.raise_if(x, ctx, z3.Not(is_Ref(o)), "AttributeError", node=t)
+                x.heap = x.heap.dset(rval(o), sv(t.attr), v)
+                return VNone
+            BI.ref_split(self, st, ctx, obj, setattr_)
         elif isinstance(t, (ast.Tuple, ast.List)):
             n = len(t.elts)
             self.raise_if(st, ctx, z3.Not(z3.And(is_Ref(v), z3.Or(ty(rval(v)) == T_TUPLE, ty(rval(v)) == T_LIST))),
@@ -663,7 +733,7 @@ class Exec(object):
                            lambda x: self.exec_block(s.orelse, x, ctx))
 
     def branch(self, st, c, f_then, f_else):
-        c = simp(c)
+        c = self.name_bool(c)
         if z3.is_true(c):
             return f_then(st)
         if z3.is_false(c):
@@ -777,20 +847,48 @@ class Exec(object):
     def s_While(self, s, st, ctx):
         return self.run_loop(s, st, ctx, seq=None)
 
+    def it_len(self, seq):
+        if isinstance(seq, tuple):
+            return z3.Length(seq[1])
+        return z3.Length(seq)
+
+    def it_assign(self, target, seq, idx, st, ctx):
+        """Bind the loop target for iteration `idx` (enumerate / dict items are not materialised as tuples)."""
+        if isinstance(seq, tuple) and seq[0] == "enumerate":
+            base, start = seq[1], seq[2]
+            if isinstance(target, (ast.Tuple, ast.List)) and len(target.elts) == 2:
+                self.assign_target(target.elts[0], VInt(start + idx), st, ctx)
+                self.assign_target(target.elts[1], self.close_refs(base[idx]), st, ctx)
+            else:
+                self.assign_target(target, BI.new_list(self, st, [VInt(start + idx), base[idx]], T_TUPLE), st, ctx)
+            return
+        if isinstance(seq, tuple) and seq[0] == "items":
+            keys, d = seq[1], seq[2]
+            k = VStr(keys[idx])
+            v = self.close_refs(BI.hget(self, st, rval(d), keys[idx]))
+            if isinstance(target, (ast.Tuple, ast.List)) and len(target.elts) == 2:
+                self.assign_target(target.elts[0], k, st, ctx)
+                self.assign_target(target.elts[1], v, st, ctx)
+            else:
+                self.assign_target(target, BI.new_list(self, st, [k, v], T_TUPLE), st, ctx)
+            return
+        self.assign_target(target, self.close_refs(seq[idx]) if not z3.is_int_value(simp(idx)) else simp(seq[idx]),
+                           st, ctx)
+
     def run_loop(self, s, st, ctx, seq):
         """seq: z3 Seq(Val) term being iterated (for), or None (while)."""
         lc = self.loop_contract(s, ctx)
         is_for = seq is not None
         n_concrete = None
         if is_for:
-            ln = simp(z3.Length(seq))
+            ln = simp(self.it_len(seq))
             if z3.is_int_value(ln):
                 n_concrete = ln.as_long()
         if lc is None and is_for and n_concrete is not None and n_concrete <= 64:
             return self.unroll_for(s, st, ctx, seq, n_concrete)
         if lc is not None and lc.unroll is not None and is_for:
             # unroll k iterations; exhaustion obligation makes it complete
-            self.oblige(st, "unwind", "loop@%d" % s.lineno, z3.Length(seq) <= lc.unroll, span=s.lineno)
+            self.oblige(st, "unwind", "loop", self.it_len(seq) <= lc.unroll, span=s.lineno)
             return self.unroll_for_sym(s, st, ctx, seq, lc.unroll)
         return self.invariant_loop(s, st, ctx, seq, lc)
 
@@ -801,7 +899,7 @@ class Exec(object):
                 break
             conts = []
             lctx = ctx.derive(breaks=breaks, continues=conts)
-            self.assign_target(s.target, simp(seq[i]), st, ctx)
+            self.it_assign(s.target, seq, z3.IntVal(i), st, ctx)
             end = self.exec_block(s.body, st, lctx)
             st = join([end] + conts)
         if st is not None and s.orelse:
@@ -815,16 +913,16 @@ class Exec(object):
             if st is None or st.dead:
                 break
             fin = st.fork()
-            fin.guard(z3.Length(seq) <= i)
+            fin.guard(self.it_len(seq) <= i)
             done.append(fin)
-            st.guard(z3.Length(seq) > i)
+            st.guard(self.it_len(seq) > i)
             conts = []
             lctx = ctx.derive(breaks=breaks, continues=conts)
-            self.assign_target(s.target, seq[i], st, ctx)
+            self.it_assign(s.target, seq, z3.IntVal(i), st, ctx)
             end = self.exec_block(s.body, st, lctx)
             st = join([end] + conts)
         if st is not None:
-            st.guard(z3.Length(seq) <= k)
+            st.guard(self.it_len(seq) <= k)
             done.append(st)
         res = join(done)
         if res is not None and s.orelse:
@@ -881,7 +979,7 @@ class Exec(object):
         def eval_inv(state, text_ast, idx):
             sctx = ctx.derive(spec=True, pre=pre_loop, raises=[], returns=[])
             state.frames.setdefault(ctx.fid, {})["idx"] = VInt(idx)
-            if is_for:
+            if is_for and not isinstance(seq, tuple):
                 state.ghost["__seq"] = seq
             v = self.truth(self.eval(text_ast, state, sctx), state)
             state.frames[ctx.fid].pop("idx", None)
@@ -921,11 +1019,11 @@ class Exec(object):
         exit_st = hst.fork()
         breaks, conts = [], []
         if is_for:
-            self.assume(hst, idx <= z3.Length(seq))
-            exit_st.guard(idx == z3.Length(seq)) if lc is not None else None
+            self.assume(hst, idx <= self.it_len(seq))
+            exit_st.guard(idx == self.it_len(seq)) if lc is not None else None
             body_st = hst
-            body_st.guard(idx < z3.Length(seq))
-            self.assign_target(s.target, seq[idx], body_st, ctx)
+            body_st.guard(idx < self.it_len(seq))
+            self.it_assign(s.target, seq, idx, body_st, ctx)
         else:
             body_st = hst
             c = self.truth(self.eval(s.test, body_st, ctx), body_st)
@@ -1022,7 +1120,7 @@ class Exec(object):
         return self.branch_val(st, c, lambda x: self.eval(e.body, x, ctx), lambda x: self.eval(e.orelse, x, ctx))
 
     def branch_val(self, st, c, f_then, f_else):
-        c = simp(c)
+        c = self.name_bool(c)
         if z3.is_true(c):
             return f_then(st)
         if z3.is_false(c):
@@ -1116,9 +1214,12 @@ class Exec(object):
                 return self.obj("builtin", o[1] + "." + e.attr)
             if o[0] == "builtin":
                 return self.obj("builtin", o[1] + "." + e.attr)
-        self.raise_if(st, ctx, z3.Not(is_Ref(v)), "AttributeError", node=e)
         self.key_universe.add(e.attr)
-        return self.close_refs(BI.hget(self, st, rval(v), sv(e.attr)))
+
+        def getattr_(x, o):
+            self.raise_if(x, ctx, z3.Not(is_Ref(o)), "AttributeError", node=e)
+            return self.close_refs(BI.hget(self, x, rval(o), sv(e.attr)))
+        return BI.ref_split(self, st, ctx, v, getattr_)
 
     def external_value(self, dn, ext, st, ctx):
         return VOpq(z3.IntVal(abs(hash(dn)) % 1000000))
@@ -1459,7 +1560,19 @@ class Exec(object):
             return VNone
         # havoc what the callee may modify
         if c.modifies == "ALL":
-            st.heap = Heap(fresh("DVh", DVs), fresh("DPh", DPs), fresh("LSh", LSs))
+            nh = Heap(fresh("DVh", DVs), fresh("DPh", DPs), fresh("LSh", LSs))
+            if c.preserves == "PROTECTED":
+                pvals = list(getattr(self, "protected_vals", []))
+            else:
+                pvals = [self.eval_spec(pn, pre.fork(), fid, spec_unit, pre) for pn in c.preserves]
+            for pv in pvals:
+                r = rval(pv)
+                kept = Heap(z3.Store(nh.DV, r, BI.heap_select(self, st, st.heap.DV, r)),
+                            z3.Store(nh.DP, r, BI.heap_select(self, st, st.heap.DP, r)),
+                            z3.Store(nh.LS, r, BI.heap_select(self, st, st.heap.LS, r)))
+                isr = simp(is_Ref(pv))
+                nh = kept if (z3.is_true(isr) or self.quick(st, isr)) else Heap.ite(isr, kept, nh)
+            st.heap = nh
         elif c.modifies_ast:
             st.heap = self.havoc_refs(st.heap, c.modifies_ast, pre, fid, spec_unit)
         # result
@@ -1485,9 +1598,25 @@ class Exec(object):
                 continue
             v = self.eval_spec(n, pre.fork(), fid, spec_unit, pre, extra={"result": result})
             newg[g] = BI.unbox_like(v, st.ghost.get(g), pre)
+        if unit is not None and not c.pure:
+            # a contracted *unit* may change any ghost variable; its ensures say how (externals only do
+            # what their `ghost=` clause says)
+            for g in list(st.ghost):
+                if g in newg or g.startswith("__") or g in getattr(self.reg, "ghost_const", ()) \
+                        or g in self.reg.markers():
+                    continue
+                if c.ghost_modifies is not None and g not in c.ghost_modifies:
+                    continue
+                t = st.ghost[g]
+                if isinstance(t, Heap):
+                    st.ghost[g] = Heap(fresh("gDV_" + g, DVs), fresh("gDP_" + g, DPs), fresh("gLS_" + g, LSs))
+                else:
+                    st.ghost[g] = fresh("g_" + g, t.sort())
         for g, v in newg.items():
             st.ghost[g] = v
-        st.frames[fid]["result"] = result
+        st.frames[fid]["retval"] = result
+        if "result" not in bound:
+            st.frames[fid]["result"] = result
         for lab, text, n in c.ensures:
             g = self.truth(self.eval_spec(n, st, fid, spec_unit, pre), st)
             self.assume(st, g)
@@ -1568,6 +1697,12 @@ class Exec(object):
             n = ast.parse(text, mode="eval").body
             v = self.eval_spec(n, st, fid, unit, pre0)
             st.ghost[gname] = BI.unbox_like(v, st.ghost.get(gname), st)
+        self.protected_vals = [self.eval_spec(pn, st.fork(), fid, unit, pre0) for pn in c.protected]
+        if c.distinct:
+            dvals = [simp(rval(self.eval_spec(pn, st.fork(), fid, unit, pre0))) for pn in c.distinct]
+            self.assumptions.append(z3.Distinct(*dvals))
+            self.distinct_groups = getattr(self, "distinct_groups", []) + [set(d.get_id() for d in dvals)]
+            self.__dict__.setdefault("_keepalive", []).append(dvals)
         self.oblige(st, "cover", "requires-satisfiable", z3.BoolVal(True), expect="sat")
         for lab, text, n in c.covers:
             g = self.truth(self.eval_spec(n, st.fork(), fid, unit, pre0), st)
@@ -1586,12 +1721,21 @@ class Exec(object):
             # evaluate ensures with parameters as in the PRE state (contracts speak about entry values of params)
             efid = self.new_frame(unit, parent_fid)
             fin.frames[efid] = dict(pre.frames[fid])
-            fin.frames[efid]["result"] = result
+            fin.frames[efid]["retval"] = result
+            if "result" not in pre.frames[fid]:
+                fin.frames[efid]["result"] = result
             pre.frames[efid] = dict(pre.frames[fid])
             for lab, text, n in c.ensures:
                 g = self.truth(self.eval_spec(n, fin, efid, unit, pre), fin)
                 self.oblige(fin, "post", lab, g, span=unit.span()[0])
             self.frame_obligation(c, unit, pre, fin, efid, alloc0, "frame")
+            if c.ghost_modifies is not None:
+                for g in sorted(fin.ghost):
+                    if g in c.ghost_modifies or g in c.ghost or g.startswith("__") or g not in pre.ghost:
+                        continue
+                    a, b_ = fin.ghost[g], pre.ghost[g]
+                    goal = a.eq(b_) if isinstance(a, Heap) else (a == b_)
+                    self.oblige(fin, "frame", "ghost-" + g, goal, span=unit.span()[0])
         # exceptional exits
         by_cls = {}
         for rs, exc in ctx.raises:
@@ -1677,10 +1821,10 @@ def _mentions_unbound(t, cache):
             if x.decl().eq(Val.VUnbound):
                 found = True
                 break
-            # do not look inside heap reads: the heap never holds VUnbound
-            if x.decl().kind() == z3.Z3_OP_SELECT:
-                continue
-            stack.extend(x.children())
+            # only value positions (branches of If nodes); the heap never holds VUnbound
+            if x.decl().kind() == z3.Z3_OP_ITE:
+                stack.append(x.arg(1))
+                stack.append(x.arg(2))
     cache[k] = found
     return found
 
